@@ -195,6 +195,15 @@ def walk_language(req):
                                 except Exception:  # noqa
                                     pass
                             p = parsers[pk] = DateDataParser(**{kind: [name]}, settings=st)
+                        if pr is probes[0] or pr is probes[-1]:
+                            # the string's look-alikes (the name without its accents, in another letter case) parsed on
+                            # the same parser right before it: what they leave behind must not serve the listed name
+                            plain_w = normalize_unicode(w)
+                            for alike in ([plain_w] if plain_w != w else []) + ([w.upper()] if pr is probes[-1] and w.upper() != w else []):
+                                try:
+                                    p.get_date_data(s.replace(w, alike))
+                                except Exception:  # noqa
+                                    pass
                         dd = p.get_date_data(s)
                         d_ = dd["date_obj"]
                         o = [] if d_ is None else [d_.year, d_.month, d_.day, d_.hour, d_.minute, d_.second, d_.microsecond]
